@@ -27,6 +27,7 @@ type evalOut struct {
 	Plain         *CallJ
 	Model         *HistoryJ
 	Findings      []Finding
+	AltsFullAsked bool // the per-nesting-level failure alternatives were needed
 }
 
 func infoAt(i *InfoJ, path string) *InfoJ {
@@ -311,29 +312,64 @@ func evaluate(ctx *vh.Ctx, prop string, c *Case) (*evalOut, error) {
 		NormalizeModelCall(model.Plain)
 	}
 	o.Model = &model
-	if prop == "C06" {
-		o.Findings = append(o.Findings, directC06(c, impl)...)
-	} else {
-		o.Findings = append(o.Findings, directC05(c, impl, plain, &model)...)
-	}
-	o.Findings = append(o.Findings, compareModel(prop, impl, &model)...)
-	if prop == "C05" && plain != nil && model.Plain != nil {
-		// the reference run itself must be the model's reference run
-		a, b := plain, model.Plain
-		eq := a.Res == b.Res && vh.CanonEq(a.Result, b.Result)
-		if !eq {
-			for j := range model.PlainAlts {
-				alt := &model.PlainAlts[j]
-				NormalizeModelCall(alt)
-				if a.Res == alt.Res && vh.CanonEq(a.Result, alt.Result) {
-					eq = true
+	judge := func() error {
+		o.Findings = nil
+		if prop == "C06" {
+			o.Findings = append(o.Findings, directC06(c, impl)...)
+		} else {
+			o.Findings = append(o.Findings, directC05(c, impl, plain, &model)...)
+		}
+		o.Findings = append(o.Findings, compareModel(prop, impl, &model)...)
+		if prop == "C05" && plain != nil && model.Plain != nil {
+			// the reference run itself must be the model's reference run
+			a, b := plain, model.Plain
+			eq := a.Res == b.Res && vh.CanonEq(a.Result, b.Result)
+			if !eq {
+				for j := range model.PlainAlts {
+					alt := &model.PlainAlts[j]
+					NormalizeModelCall(alt)
+					if a.Res == alt.Res && vh.CanonEq(a.Result, alt.Result) {
+						eq = true
+					}
 				}
 			}
+			if !eq {
+				o.Findings = append(o.Findings, Finding{Sig: "C05:plain-result", What: "uninterrupted run: result differs from the model", Model: b, Impl: a})
+			} else if !vh.CanonEq(a.Steps, b.Steps) || !vh.CanonEq(a.Execs, b.Execs) {
+				o.Findings = append(o.Findings, Finding{Sig: "C05:plain-trace", What: "uninterrupted run: supersteps / executions differ from the model", Model: b, Impl: a})
+			}
 		}
-		if !eq {
-			o.Findings = append(o.Findings, Finding{Sig: "C05:plain-result", What: "uninterrupted run: result differs from the model", Model: b, Impl: a})
-		} else if !vh.CanonEq(a.Steps, b.Steps) || !vh.CanonEq(a.Execs, b.Execs) {
-			o.Findings = append(o.Findings, Finding{Sig: "C05:plain-trace", What: "uninterrupted run: supersteps / executions differ from the model", Model: b, Impl: a})
+		return nil
+	}
+	if err := judge(); err != nil {
+		return nil, err
+	}
+	// which failure a call reports depends on the completion order at every nesting level: when the
+	// alternatives under uniform schedules do not explain the implementation's result, ask for the
+	// alternatives with one schedule per nesting level and judge again
+	if !c.AltsFull {
+		need := false
+		for _, f := range o.Findings {
+			if strings.Contains(f.Sig, ":call-result:") || f.Sig == "C05:plain-result" {
+				need = true
+			}
+		}
+		if need {
+			c2 := *c
+			c2.AltsFull = true
+			raw2, err := ctx.Oracle.Ask(prop, &c2)
+			if err != nil {
+				return nil, err
+			}
+			var m2 HistoryJ
+			if err := json.Unmarshal(raw2, &m2); err != nil {
+				return nil, err
+			}
+			model.Alts, model.PlainAlts = m2.Alts, m2.PlainAlts
+			o.AltsFullAsked = true
+			if err := judge(); err != nil {
+				return nil, err
+			}
 		}
 	}
 	return o, nil
@@ -602,6 +638,9 @@ func Evaluate(ctx *vh.Ctx, prop string, c *Case, doShrink bool) error {
 	}
 	if c.NoID {
 		ctx.Res.Dist("no-checkpoint-id")
+	}
+	if o.AltsFullAsked {
+		ctx.Res.Dist("failure-alternatives-per-nesting-level-asked")
 	}
 	if o.Malformed {
 		cl := o.Class
